@@ -1548,7 +1548,38 @@ class ReceivePackHandler(PackHandler):
                         yield (ref, status)
                 return
 
-            # All validations passed; apply all ref updates
+            # All validations passed. Before touching anything, check that
+            # every update can be applied: the ref still has the old value
+            # the client named and the new value is an object we have.
+            ref_results = []
+            has_failure = False
+            for oldsha, sha, ref in refs:
+                ref_status = b"ok"
+                try:
+                    current = self.repo.refs[ref]
+                except KeyError:
+                    current = zero_sha
+                if current != oldsha:
+                    ref_status = b"failed to update ref"
+                elif sha != zero_sha and sha not in self.repo.object_store:
+                    ref_status = b"missing necessary objects"
+                if ref_status != b"ok":
+                    has_failure = True
+                ref_results.append((ref, ref_status))
+
+            if has_failure:
+                for ref, status in ref_results:
+                    if status == b"ok":
+                        yield (ref, b"atomic push failed")
+                    else:
+                        yield (ref, status)
+                return
+
+            # Apply the updates. If one of them fails after all (somebody
+            # else changed the ref in the meantime), undo the ones already
+            # applied so that the push is applied as a whole or not at all.
+            applied: list[tuple[ObjectID, ObjectID, Ref]] = []
+            failed: tuple[Ref, bytes] | None = None
             for oldsha, sha, ref in refs:
                 ref_status = b"ok"
                 try:
@@ -1558,9 +1589,6 @@ class ReceivePackHandler(PackHandler):
                                 ref_status = b"failed to update ref"
                         except all_exceptions:
                             ref_status = b"failed to delete"
-                    elif sha not in self.repo.object_store:
-                        # Never let a ref name an object we don't have
-                        ref_status = b"missing necessary objects"
                     else:
                         try:
                             if not self.repo.refs.set_if_equals(ref, oldsha, sha):
@@ -1569,7 +1597,31 @@ class ReceivePackHandler(PackHandler):
                             ref_status = b"failed to write"
                 except KeyError:
                     ref_status = b"bad ref"
-                yield (ref, ref_status)
+                if ref_status != b"ok":
+                    failed = (ref, ref_status)
+                    break
+                applied.append((oldsha, sha, ref))
+
+            if failed is not None:
+                for oldsha, sha, ref in reversed(applied):
+                    try:
+                        if oldsha == zero_sha:
+                            self.repo.refs.remove_if_equals(ref, sha)
+                        elif sha == zero_sha:
+                            self.repo.refs.add_if_new(ref, oldsha)
+                        else:
+                            self.repo.refs.set_if_equals(ref, sha, oldsha)
+                    except all_exceptions:
+                        pass
+                for _oldsha, _sha, ref in refs:
+                    if ref == failed[0]:
+                        yield failed
+                    else:
+                        yield (ref, b"atomic push failed")
+                return
+
+            for _oldsha, _sha, ref in refs:
+                yield (ref, b"ok")
         else:
             for oldsha, sha, ref in refs:
                 ref_status = b"ok"
